@@ -154,6 +154,13 @@ CORPUS_SRC = r'''(def corpus @[])
 (add "longstr" (string/repeat "0123456789abcdef" 150))
 (add "deep" (do (var x :leaf) (for i 0 60 (set x (if (even? i) [x] @[x]))) x))
 (add "refs" (let [s "shared-string" t @[1 2]] [s s t t s [t t] {:a s :b t}]))
+# 13. two suspended fibers whose frames each own an on-stack environment (a frame of the second can be made to claim
+#     an environment that lives on the first)
+(defn mk-env-fiber [n slots]
+  (def f (fiber/new (dcompile ~(fn ff [x] (var a x) ,;(seq [i :range [0 slots]] ~(def ,(symbol "pad" i) (+ x ,i)))
+                                  (def g (fn g [] (++ a))) (yield g) (yield a) [a ,(symbol "pad" (- slots 1))])) :yi))
+  [f (resume f n)])
+(add "fiber-pair" [(mk-env-fiber 1 3) (mk-env-fiber 2 40)])
 # 12. a definition whose constants reach another closure of the same definition (funcdef back-reference from inside
 #     the definition's own constants; the inner function is created while its definition is still being read)
 (def selfdef-t @{:pad 1})
